@@ -237,6 +237,9 @@ func isUnsigned(t types.Type) bool {
 	return false
 }
 func isIntegerT(t types.Type) bool {
+	if t == nil {
+		return false
+	}
 	if b, ok := types.Unalias(t).Underlying().(*types.Basic); ok {
 		return b.Info()&types.IsInteger != 0
 	}
